@@ -219,6 +219,21 @@ def forall(vs, body, patterns=None):
     return z3.ForAll(vs, body)
 
 
+def exists(vs, body, patterns=None):
+    """Exists with patterns; invalid patterns are dropped (see forall)"""
+    if patterns:
+        good = []
+        for p in patterns:
+            try:
+                z3.Exists(vs, body, patterns=[p])
+                good.append(p)
+            except z3.Z3Exception:
+                pass
+        if good:
+            return z3.Exists(vs, body, patterns=good)
+    return z3.Exists(vs, body)
+
+
 def type_id(name):
     """Stable small integer for a dynamic class name ('list', 'dict', 'set', or a user class)."""
     if name not in _TYPE_IDS:
